@@ -494,6 +494,10 @@ def adversarial_programs():
         "branch-to-next-line-bz": P + "txn Fee\nint 1000\n<=\nbz next\nnext:\nint 1\nreturn",
         "b-to-next-line": P + "b next\nnext:\nint 1\nreturn",
         "bz-last-instruction": P + "int 1\nstart:\ntxn Fee\nint 1000\n<\nbz start",
+        # same shape with and without a read through an absolute index (group-size-check reports only the first)
+        "gsize-abs-read": P + "gtxn 1 Fee\nint 1000\n<=\nbnz ok\nerr\nok:\nint 1\nreturn",
+        "gsize-plain": P + "txn Fee\nint 1000\n<=\nbnz ok\nerr\nok:\nint 1\nreturn",
+        "gsize-abs-read-in-second-block": P + "txn Fee\nint 1000\n<=\nbnz ok\nerr\nok:\ngtxn 0 RekeyTo\nglobal ZeroAddress\n==\nreturn",
         # two possible own indices, one below 8 and one at or above 8 (set iteration order differs from numeric order)
         **{f"index-pair-{a}-{b}": P + f"txn GroupIndex\nint {a}\n==\ntxn GroupIndex\nint {b}\n==\n||\nassert\ntxn RekeyTo\nglobal ZeroAddress\n==\nassert\ntxn Fee\nint 1000\n<=\nassert\nint 1\nreturn"
            for a, b in ((1, 8), (2, 9), (3, 8), (0, 15), (7, 8), (9, 10), (8, 1), (12, 4))},
